@@ -107,7 +107,8 @@ Proof.
       rewrite bget_set_other by exact Hne. exact (Hb t' tr x Et Ea Hd).
   - (* OLoad *)
     specialize (HR r) as Hr. destruct (aget (w_roots w) r) as [rt|] eqn:Er; destruct (aget aro r) as [x0|] eqn:Ea0; try contradiction; [|exact Hb].
-    cbn [snd] in Hs. rewrite Ea0 in Hs. destruct Hs as [<- <-]. destruct Hr as [Hg _].
+    cbn [snd] in Hs. rewrite Ea0 in Hs. destruct Hs as (<- & <- & Hbf). destruct Hr as [Hg Hlo].
+    rewrite (RootRT.root_via_json_id rt (good_root_wf _ _ _ _ _ _ Hg Hlo Hbf)).
     destruct (load_good _ _ _ _ _ _ Hg) as (tt & [fm m] & E & _). rewrite E. cbn [fst snd].
     intros t' tr x Et Ea Hd; cbn [fst snd] in Ea, Et. unfold set_tree in Et. cbn [w_trees] in Et. destruct (N.eq_dec t t') as [->|Hne].
     + rewrite aget_aset_same in Ea. inversion Ea; subst x. rewrite bget_set_same. reflexivity.
